@@ -142,6 +142,15 @@ func (o DLOracle) AfterStep(m *VM, rec *Rec) {
 			m.Violate(o.Prop, "S4-return-waits-for-worker", "Run returned only after its goroutines were scheduled many more times past the deadline", fmt.Sprintf("Run returned %q %d scheduling steps after the stall that carried the clock past the deadline (limit %d ns, elapsed %d ns)", rec.Class, late, maxDur, elapsed))
 		}
 	}
+	if model.ExprErr && !model.Unbound && !model.Capped {
+		m.Probe("dl_expression_error_in_least_model")
+		if rec.Class == "ok" && !clockMoved {
+			// some complete match of some rule makes an expression fail: the evaluation enumerates every
+			// match of every rule over the facts it ends with, so it has met that match and cannot have
+			// completed "without error" (C05, first sentence; C11: success only when the fixpoint was reached)
+			m.Violate(o.Prop, "S1-success-despite-failing-expression", "Run()==nil although a rule's expression fails on a match", fmt.Sprintf("Run returned nil with %d facts; the reference finds a complete match whose expression evaluation fails", rec.Ints["nfacts"]))
+		}
+	}
 	if !wellFormed {
 		m.Probe("dl_ill_formed_program")
 		if rec.Class == "ok" && model.Unbound {
